@@ -2,6 +2,7 @@ package rules
 
 import (
 	"go/ast"
+	"go/token"
 	"go/types"
 	"sort"
 
@@ -381,21 +382,50 @@ func init() {
 			// on every way out of the case that does not carry an error (return nil, or return err on a
 			// path where err was found nil / not tested non-nil) the operators were flushed
 			nOK := 0
-			scSpec := &pathsim.Spec{InlineCalls: true}
+			// atom 0: "the error variable tested inside the case is non-nil" (a local of the case or the
+			// function's named result); an assignment to it resets the knowledge
+			var errObjs []types.Object
+			ast.Inspect(clause, func(nd ast.Node) bool {
+				if e, ok := nd.(ast.Expr); ok {
+					if x, _, ok := pathsim.IsNilCompare(info, e); ok {
+						if o := prog.IdentObjPlain(info, x); o != nil && isErrorType(o.Type()) {
+							errObjs = append(errObjs, o)
+						}
+					}
+				}
+				return true
+			})
+			scSpec := &pathsim.Spec{InlineCalls: true, AtomDeps: map[int][]types.Object{0: errObjs}}
 			scSpec.Atom = func(c *pathsim.Ctx, e ast.Expr) (int, bool, bool) {
 				if x, notNil, ok := pathsim.IsNilCompare(c.Info, e); ok {
-					if o := prog.IdentObj(c.Info, x); o != nil && isErrorType(o.Type()) && o.Pos() > clause.Pos() && o.Pos() < clause.End() {
-						return 0, !notNil, true // atom 0: "the broadcast error is non-nil"
+					if o := prog.IdentObjPlain(c.Info, x); o != nil && isErrorType(o.Type()) && x.Pos() > clause.Pos() && x.Pos() < clause.End() {
+						return 0, !notNil, true
 					}
 				}
 				return 0, false, false
 			}
 			scSpec.Step = func(c *pathsim.Ctx, s pathsim.State, ev *pathsim.Event) []pathsim.State {
 				if isClusterFlush(c, ev) {
-					s.A = 1
+					s.A, s.B = 1, 1
 					return []pathsim.State{s}
 				}
-				if ev.Kind != pathsim.EvReturn || ev.Pos < clause.Pos() || ev.Pos > clause.End() || len(ev.Results) != 1 {
+				if ev.Kind == pathsim.EvCall && ev.Pos > clause.Pos() && ev.Pos < clause.End() && s.B == 0 {
+					s.B = 1 // the path goes through the SourceComplete case
+					return []pathsim.State{s}
+				}
+				// returns of this path: inside the case, or the function's shared exit after the switch
+				if ev.Kind != pathsim.EvReturn || s.B == 0 || len(ev.Results) > 1 {
+					return nil
+				}
+				if len(ev.Results) == 0 {
+					// bare return of a named error result: success unless the error is known non-nil
+					if s.V[0] == pathsim.True {
+						return nil
+					}
+					nOK++
+					if s.A == 0 {
+						c.Violate(ev.Pos, "[flush-at-source-complete] sendOperatorEvent reports success for SourceComplete without having flushed the operators' pending batches: the last records of a bounded source stay in a batch that no size or time-out trigger will ever send")
+					}
 					return nil
 				}
 				tv, ok := c.Info.Types[ev.Results[0]]
@@ -470,8 +500,26 @@ func init() {
 					return true
 				})
 				r.Site(gs.Pos(), "sender goroutine of newBatchingOperator")
-				if cnt < 2 {
-					r.Fail(nb.Name()+":sender-goroutine", gs.Pos(), nil, "the sender goroutine must deliver both timed-out and full batches (found %d HandleEventBatch calls)", cnt)
+				// both arrivals are served: the full batches handed over on `batches` and the time-outs
+				// announced on BatchTimedOut (flushed here), by one or two HandleEventBatch calls
+				batchesF := r.P.Field("workers/sourcerunner", "batchingOperator", "batches")
+				timedOutF := r.P.Field("batching", "EventBatcher", "BatchTimedOut")
+				flushFn := r.P.FuncObj("batching", "(*EventBatcher).Flush")
+				recvFull, recvTimeout := false, false
+				inspect(lit.Body, func(m ast.Node) bool {
+					if u, ok := m.(*ast.UnaryExpr); ok && u.Op == token.ARROW {
+						switch prog.SelField(info, u.X) {
+						case batchesF:
+							recvFull = true
+						case timedOutF:
+							recvTimeout = true
+						}
+					}
+					return true
+				})
+				flushes := r.exprCalls(info, lit.Body, flushFn)
+				if cnt < 1 || !recvFull || !recvTimeout || !flushes {
+					r.Fail(nb.Name()+":sender-goroutine", gs.Pos(), nil, "the sender goroutine must deliver both timed-out and full batches (HandleEventBatch calls: %d, receives full batches: %v, receives time-outs: %v, flushes on time-out: %v)", cnt, recvFull, recvTimeout, flushes)
 				}
 				return true
 			})
@@ -568,12 +616,16 @@ func init() {
 	register(&Obligation{ID: "C04.g", Props: []string{"C04", "C05"}, Template: "value-identity",
 		Desc: "operatorCluster.routeEvent indexes the operators with keySpace.RangeIndex(key) of the record's key; broadcastEvent visits every operator; the cluster's key space is built from the deployed key-group count and the number of operators",
 		Run: func(r *Run) {
-			f := r.P.Func("workers/sourcerunner", "(*operatorCluster).routeEvent")
-			info := f.Pkg.TypesInfo
+			f := r.P.TryFunc("workers/sourcerunner", "(*operatorCluster).routeEvent")
 			ri := r.P.FuncObj("partitioning", "(*KeySpace).RangeIndex")
 			ops := r.P.Field("workers/sourcerunner", "operatorCluster", "operators")
-			ok := false
-			inspect(f.Decl.Body, func(nd ast.Node) bool {
+			ok := f == nil // (inlined at its call site: the index expression is checked there by routeCallOf)
+			var info *types.Info
+			var body ast.Node = &ast.BlockStmt{}
+			if f != nil {
+				info, body = f.Pkg.TypesInfo, f.Decl.Body
+			}
+			inspect(body, func(nd ast.Node) bool {
 				ix, isIx := nd.(*ast.IndexExpr)
 				if !isIx || prog.SelField(info, ix.X) != ops {
 					return true
@@ -588,16 +640,22 @@ func init() {
 			if !ok {
 				r.Fail(f.Name()+":index", f.Decl.Pos(), nil, "routeEvent does not pick operators[keySpace.RangeIndex(key)]: a record would be delivered to an operator that does not own its key group")
 			}
+			nRoute := 0
 			// routeEvent's key argument at the call site is the event's own key
 			so := r.P.Func("workers/sourcerunner", "(*SourceRunner).sendOperatorEvent")
 			si := so.Pkg.TypesInfo
 			inspect(so.Decl.Body, func(nd ast.Node) bool {
 				call, isCall := nd.(*ast.CallExpr)
-				if !isCall || r.P.CalleeFunc(si, call) != f.Obj || len(call.Args) != 2 {
+				if !isCall {
 					return true
 				}
+				keyArg, evArg, isRoute := r.routeCallOf(si, call)
+				if !isRoute {
+					return true
+				}
+				nRoute++
 				r.Site(call.Pos(), "routeEvent(key, event) arguments")
-				sel, isSel := ast.Unparen(call.Args[0]).(*ast.SelectorExpr)
+				sel, isSel := ast.Unparen(keyArg).(*ast.SelectorExpr)
 				if !isSel || sel.Sel.Name != "Key" {
 					r.Fail(so.Name()+":route-key", call.Pos(), nil, "routeEvent is not given the keyed event's Key")
 					return true
@@ -605,8 +663,8 @@ func init() {
 				// the routed event wraps the same keyed event
 				base := prog.IdentObj(si, sel.X)
 				uses := false
-				inspect(call.Args[1], func(m ast.Node) bool {
-					if id, ok := m.(*ast.Ident); ok && si.Uses[id] == base {
+				inspect(evArg, func(m ast.Node) bool {
+					if id, ok := m.(*ast.Ident); ok && prog.IdentObj(si, id) == base {
 						uses = true
 					}
 					return true
@@ -616,6 +674,9 @@ func init() {
 				}
 				return true
 			})
+			if nRoute == 0 {
+				r.Fail(so.Name()+":no-route", so.Decl.Pos(), nil, "sendOperatorEvent no longer delivers keyed events to operators[keySpace.RangeIndex(key)]")
+			}
 			// broadcast visits all
 			b := r.P.Func("workers/sourcerunner", "(*operatorCluster).broadcastEvent")
 			bi := b.Pkg.TypesInfo
@@ -743,4 +804,33 @@ func (r *Run) checkKeySpaceArgs(f *prog.FuncInfo, okArgs func(info *types.Info, 
 	if !found {
 		r.Fail(f.Name()+":no-keyspace", f.Decl.Pos(), nil, "%s no longer builds a partitioning.KeySpace", f.Name())
 	}
+}
+
+// routeCallOf recognises "deliver this event to the operator that owns the key" in both spellings:
+// cluster.routeEvent(key, event), or - with that two-line helper inlined -
+// cluster.operators[cluster.keySpace.RangeIndex(key)].HandleEvent(event). It returns the key and
+// the event expression.
+func (r *Run) routeCallOf(info *types.Info, call *ast.CallExpr) (key, event ast.Expr, ok bool) {
+	if rf := r.P.TryFunc("workers/sourcerunner", "(*operatorCluster).routeEvent"); rf != nil && r.P.CalleeFunc(info, call) == rf.Obj && len(call.Args) == 2 {
+		return call.Args[0], call.Args[1], true
+	}
+	he := r.P.FuncObj("workers/sourcerunner", "(*batchingOperator).HandleEvent")
+	ops := r.P.Field("workers/sourcerunner", "operatorCluster", "operators")
+	ri := r.P.FuncObj("partitioning", "(*KeySpace).RangeIndex")
+	if r.P.CalleeFunc(info, call) != he || len(call.Args) != 1 {
+		return nil, nil, false
+	}
+	sel, isSel := ast.Unparen(call.Fun).(*ast.SelectorExpr)
+	if !isSel {
+		return nil, nil, false
+	}
+	ix, isIx := deref(info, sel.X).(*ast.IndexExpr)
+	if !isIx || prog.SelField(info, ix.X) != ops {
+		return nil, nil, false
+	}
+	ic, isCall := deref(info, ix.Index).(*ast.CallExpr)
+	if !isCall || r.P.CalleeFunc(info, ic) != ri || len(ic.Args) != 1 {
+		return nil, nil, false
+	}
+	return ic.Args[0], call.Args[0], true
 }
